@@ -550,6 +550,18 @@ func genSynth(rng *prng.R, n int) []CaseD {
 		case dev(2, "pol-disabled"):
 			pol.Disabled = true
 		}
+		if kind == 2 && pol.TDX && dev(45, "tdx-mods") {
+			seam, signer := hex.EncodeToString(sq.body[16:64]), hex.EncodeToString(sq.body[64:112])
+			w1, w2 := hex.EncodeToString(r.Bytes(48)), hex.EncodeToString(r.Bytes(48))
+			shapes := [][]ModD{
+				{{nil, signer}}, {{&seam, signer}}, {{nil, w1}}, {{&w1, signer}}, {{&seam, w1}}, {{&w1, w2}},
+				{{&w1, signer}, {&seam, w2}}, {{&w1, signer}, {&w2, signer}}, {{nil, w1}, {&w1, signer}, {&seam, signer}},
+				{{&seam, signer}, {&w1, w2}}, {{&w1, signer}, {nil, signer}}, {},
+			}
+			k := r.Intn(len(shapes))
+			pol.Mods = shapes[k]
+			notes = append(notes, fmt.Sprintf("shape%d", k))
+		}
 		certs := "synth_tcb_chain"
 		if dev(2, "tcb-chain-is-pck-chain") {
 			certs = "synth_pck_main"
